@@ -62,6 +62,8 @@ Init == /\ cfg \in Configs
 \* is there a file at all?  (a context that starts over no entries starts without the file)
 Exists == fstate # "gone" /\ ~(stamp = 1 /\ file = NoEntries)
 
+WordRank(w) == CASE w = "as" -> 1 [] w = "help" -> 2 [] w = "academy" -> 3 [] OTHER -> 4
+
 \* typing a word and finishing it: the memo remembers the answer computed now
 Updates == {j \in 1..Len(hist) : hist[j].op = "update"}
 LastUpd == CHOOSE j \in Updates : \A k \in Updates : k <= j
@@ -72,6 +74,8 @@ Type(w) ==
     /\ phase \in {"pre", "post"}
     /\ (phase = "pre" => Cardinality({i \in 1..Len(hist) : hist[i].op = "type"}) < (IF Twice THEN 0 ELSE 1))
     /\ (phase = "post" => TypesSinceUpd < 2)
+    \* (the two words typed after the update: unordered pairs, a word may be typed twice)
+    /\ ((phase = "post" /\ TypesSinceUpd = 1) => WordRank(w) >= WordRank(hist[Len(hist)].w))
     /\ memo' = IF Phon(cfg) /\ cfg.psug /\ w \notin DOMAIN memo THEN [x \in DOMAIN memo \cup {w} |-> IF x = w THEN loaded[w] ELSE memo[x]] ELSE memo
     /\ hist' = Append(hist, [op |-> "type", cfg |-> cfg, file |-> file, w |-> w])
     /\ UNCHANGED <<cfg, file, stamp, loaded, loadedAt, phase, fstate>>
